@@ -202,7 +202,8 @@ def gibbs_cases(draw, tier="quick"):
             "dict_order": draw(st.permutations(names)), "nsteps_given": {n: draw(st.sampled_from([True, True, False])) for n in names},
             # the step-count argument left out altogether (documented default: one step per block)
             "nsteps_omitted": draw(st.sampled_from([False, False, False, True])),
-            "tiny_moves": draw(st.sampled_from([False, False, False, True]))}
+            "tiny_moves": draw(st.sampled_from([False, False, False, True])), "np_steps": draw(st.booleans()),
+            "deepcopy_mid_run": draw(st.sampled_from([False, False, True]))}
 
 
 def conditioned_joint(spec):
@@ -323,7 +324,9 @@ def run_hybrid(c, rec):
                 for b in list(decoy.num_sampling_steps):
                     decoy.num_sampling_steps[b] = 4
             return E.HybridGibbs(J, strat)
-        return E.HybridGibbs(J, strat, num_sampling_steps={b: c["nsteps"][b] for b in reversed(dorder) if given.get(b, True)})
+        # (step counts may come out of numpy: np.int64 values are integers like any other)
+        as_np = (lambda v: np.int64(v)) if c.get("np_steps") else (lambda v: v)
+        return E.HybridGibbs(J, strat, num_sampling_steps={b: as_np(c["nsteps"][b]) for b in reversed(dorder) if given.get(b, True)})
     assign = {b: c["prefer"][b] for b in order}
     for b in order:  # fall back to MH where the preferred sampler does not accept the block's conditional
         if assign[b] == "CWMH" and len(init[b]) < 2:
@@ -358,6 +361,24 @@ def run_hybrid(c, rec):
         final = check_history(c, log, order, nsteps_eff, init, stored, J, rec, "HybridGibbs", total)
         for b in order:
             require(maxdiff(np.asarray(G.current_samples[b], dtype=float).reshape(-1), final[b]) == 0, "HybridGibbs: current values are not those after the last sweep")
+        if c.get("deepcopy_mid_run"):
+            # object life cycle: a deep copy of the sampler taken mid-run is a sampler of its own - continued from the same random
+            # state it makes the sweeps the original makes, also when the original has moved on in the meantime
+            import copy as _copy
+            refused, G2 = refuses(lambda: _copy.deepcopy(G))
+            if refused:
+                rec.count("deepcopy_refused")
+            else:
+                st_ = np.random.get_state()
+                must(lambda: G.sample(2), "HybridGibbs.sample after a deep copy was taken")
+                tail_o = {b: np.asarray(G.get_samples()[b].samples, dtype=float).reshape(-1, total + 2)[:, -2:].copy() for b in order}
+                np.random.set_state(st_)
+                must(lambda: G2.sample(2), "sample on the deep copy")
+                tail_c = {b: np.asarray(G2.get_samples()[b].samples, dtype=float).reshape(-1, total + 2)[:, -2:].copy() for b in order}
+                for b in order:
+                    require(maxdiff(tail_o[b], tail_c[b]) == 0, "HybridGibbs: a deep copy taken mid-run does not continue like the original from the same "
+                            f"random state (block '{b}'): it is not conditioned on its own current values", original=tail_o[b], copy=tail_c[b])
+                rec.count("deepcopy_mid_run_checked")
     finally:
         np.random.seed()
 
